@@ -10,6 +10,27 @@ GUARD = 'KOPF_VERIF_TRACE'
 
 # property id -> (technique, level text, level note, design ref)
 CHECKS: dict[str, dict[str, str]] = {
+    'C12': dict(
+        technique='TLA+ reference of the API retry loop, throttling and re-authentication (Infra.tla); the laws checked by TLC over all fault '
+                  'words; the real api.request / throttled processing / Vault run in virtual time, records judged by TLC',
+        text='RetryPlan gives the exact instants of all attempts for a fault word (connection errors, timeouts, 5xx, 403, 429 with Retry-After, '
+             'other 4xx) under a backoff list and enforce_retry_after; TLC checks its laws for 37 448 cases and then judges the real '
+             'api.request on ~900 (quick) / all (thorough) words: attempt instants must be equal. Throttling: per-object delays grow per '
+             'consecutive error, reset by success, other objects are processed at their arrival instants, the operator stays alive and '
+             'recovers. Vault: one re-authentication for N concurrent 401s, invalidated credentials not reused.',
+        note='faults are raised by the fake session (socket-level timeouts are aiohttp\'s); Retry-After in integer seconds; known defects F14 '
+             '(failed re-login kills the authenticator) and F17 (timer/daemon dies on exhausted retries) are documented, not exercised here',
+        ref='DESIGN.md 4/C12'),
+    'C17': dict(
+        technique='TLA+ reference state machine of indexing (Indexing.tla); the recorded steps of the real operator are replayed by TLC, which '
+                  'predicts the handlers that run and the full contents of every index after each step; gate scenarios judged by the same module',
+        text='Random histories (adds, edits, label toggles, deletes over 3 objects with colliding keys, 2 indices, results: mapping / scalar / '
+             'None / temporary / permanent / arbitrary error) run on the real operator; an on.event handler dumps the indices through the '
+             'kwarg views after every event; TLC replays each trace through Indexing.tla and requires equality of the handler sets and of all '
+             'index contents. The readiness gate is exercised with delayed listings of two indexed kinds and objects arriving meanwhile.',
+        note='design-level exhaustive exploration is by trace replay only for this module (the reference is deterministic); F16 is the known '
+             'startup deadlock with worker_limit',
+        ref='DESIGN.md 4/C17'),
     'C09': dict(
         technique='TLA+ model of the daemon lifecycle (Daemons.tla) checked exhaustively with TLC; recorded executions of the real operator '
                   'with scripted daemons checked by TLC against a TLA+ property automaton (DaemonMonitor.tla)',
